@@ -1,5 +1,5 @@
 # configuration of ./check for property C15 (see props_config.py)
-CONFIG = {'gen': [],
+CONFIG = {'gen': ['ConstsC15'],
  'rule': 'cases = boundary grid: 13 instants (1582-10-15, 1601-01-01, 1970-01-01, the int64-nanosecond limits 1677-09-21 / 2262-04-11, '
          '30828-09-14 = tick 0x7FFF..., 2400, 5236 = 2^60 UUID ticks, 60056 = 2^64 ticks, ...) x offsets -2..2 s x 14 sub-second values '
          '(0, 1, 99, 100, 101, ..., 999999999) through all nine time-taking ops; 27 tick counts (0, 1, epochs, 1677/2262 limits via both '
@@ -15,7 +15,9 @@ CONFIG = {'gen': [],
  'technique': 'Lean 4 proof over Int64/UInt64 machine arithmetic (wrap-around, truncating division) against unbounded-integer '
               'specifications (omega after reducing bmod/tdiv/tmod; ring-homomorphism argument for wrap-around that cancels; bit '
               'extensionality for the FILETIME halves); model tied to the Go code by differential correspondence; math/big oracle on the '
-              'same inputs',
+              'same inputs; constants regenerated from the source on every run by a go/ast fact extractor (Gen/ConstsC15: the 1601 and '
+              '1582 epochs in ticks and seconds, the 10^7 and 100 tick scales, the FILETIME masks and shift, ParseInt base and width, the '
+              'time.Date literals) and proved equal to the ones the model uses by rfl/decide (22 theorems consts_match_model_*)',
  'level_text': 'Proved in Lean about a hand-written model (Go int64/uint64 arithmetic incl. time.Unix normalisation) of the patched tree: '
                'filetime_getTime_exact, filetime_unix_exact, filetime_inverse_ticks, uuid_getTime_exact (all 2^64 tick values incl. both '
                "'never' sentinels), kc_newDateTime_partial (all non-zero uint64 ticks), ldap_timestamp_exact and ldap_duration_exact (all "
@@ -25,10 +27,14 @@ CONFIG = {'gen': [],
                'kc_inverse_partial, uuid_inverse_time, spec_ticks_time_ticks, spec_time_ticks_time), FILETIME halves '
                '(filetime_toInt64_value, filetime_halves_inverse). Two findings are recorded with Lean predicates and counterexample '
                'theorems: ConvertSecondsToLDAPDuration overflows for |s| > 922337203685 (no 64-bit result exists, no error result), '
-               'NewDateTime(0) returns the current time.',
- 'level_note': 'Trusted: Lean kernel; axioms propext, Classical.choice, Quot.sound; the hand model is tied to the Go code only by '
-               "differential testing (bounded); Go's time package is observed only through Unix()/Nanosecond(). The theorems hold for the "
-               'tree with fixes/C15-*.diff applied; the unpatched tree is wrong outside 1677..2262 for every conversion that went through '
-               'nanoseconds and for pre-1970 times with sub-100ns parts (rounding towards zero). ConvertLDAPTimeStampToUnixTimeStamp keeps '
-               'its clamp of pre-1970 ticks to 0 (part of the specification used); ConvertSecondsToLDAPDuration keeps the sign (its tests '
-               'pin that).'}
+               'NewDateTime(0) returns the current time. Constants tie: 22 theorems consts_match_model_* restate the model functions with '
+               'the numbers regenerated from the current source (the 1601 and 1582 epochs in ticks and seconds, the 10^7 and 100 tick '
+               'scales, the FILETIME masks and shift, ParseInt base and width, the time.Date literals) in place of their literals; a '
+               'changed constant in the source makes the theorem named after the function fail.',
+ 'level_note': 'Trusted: Lean kernel; axioms propext, Classical.choice, Quot.sound; the hand model is tied to the Go code by differential '
+               'testing and, for the constants covered by consts_match_model_*, by regeneration from the source (control flow: '
+               "differential testing only, bounded); Go's time package is observed only through Unix()/Nanosecond(). The theorems hold for "
+               'the tree with fixes/C15-*.diff applied; the unpatched tree is wrong outside 1677..2262 for every conversion that went '
+               'through nanoseconds and for pre-1970 times with sub-100ns parts (rounding towards zero). '
+               'ConvertLDAPTimeStampToUnixTimeStamp keeps its clamp of pre-1970 ticks to 0 (part of the specification used); '
+               'ConvertSecondsToLDAPDuration keeps the sign (its tests pin that).'}
